@@ -20,3 +20,4 @@ def run(col, configs, tier):
         guarded(col, S.rule_slice_iterators, facts)
         guarded(col, X.rule_slice_contiguity, facts)
         guarded(col, S.rule_end_of_buffer_neutral, facts)
+        guarded(col, S.rule_lookaround_kind, facts)
